@@ -52,8 +52,22 @@ var c09Values = []string{
 	"NOERROR;PTR;host.e.org.", "", "NOERROR;;",
 }
 
+// c09NoHandlerValues are NOERROR rewrites of record types that have NO value
+// parser in dnsRewriteRRHandlers: the parser keeps the type and leaves the value
+// nil (RCode 0, RRType t, Value nil).  As exceptions they disable only the
+// rewrites of the same type (all such values are nil, hence equal); they are NOT
+// the empty "disable everything" value.
+var c09NoHandlerValues = []string{
+	"NOERROR;NS;ns1.e.org", "NOERROR;NS;ns2.e.org", "NOERROR;ns;", "NOERROR;SOA;ns.e.org. root.e.org. 1 2 3 4 5",
+	"NOERROR;CAA;0 issue ca.e.org", "NOERROR;NAPTR;", "NOERROR;DS;x", "NOERROR;DNAME;new.e.org", "NOERROR;ANY;",
+	"NOERROR;SPF;hello", "NOERROR;TLSA;", "NOERROR;LOC;1.2.3.4", "noerror;Null;x",
+}
+
 func c09RuleText(r *rng) string {
 	v := pick(r, c09Values)
+	if r.chance(1, 6) {
+		v = pick(r, c09NoHandlerValues)
+	}
 	t := "||e.org^$dnsrewrite"
 	if v != "" || r.chance(1, 2) {
 		t += "=" + v
